@@ -8,6 +8,7 @@ import (
 	"io"
 	"log"
 	"net/http/httptest"
+	"reflect"
 	"strings"
 	"sync"
 	"testing"
@@ -18,6 +19,7 @@ import (
 	"github.com/mdlayher/corerad/internal/crhttp"
 	"github.com/mdlayher/corerad/verifrt/ev"
 	"github.com/mdlayher/metricslite"
+	"github.com/mdlayher/ndp"
 )
 
 // C04, RA generations that overlap in time: "forall interfaces in a multi-interface
@@ -85,7 +87,7 @@ func c04OverlapRun(t *testing.T, c c04OverlapCase) (out [][2]string) {
 			switch {
 			case strings.HasPrefix(path, "adv:"):
 				name := strings.TrimPrefix(path, "adv:")
-				ra, err := adv[name].buildRA(adv[name].cfg)
+				ra, err := c04BuildRA(adv[name])
 				rmu.Lock()
 				defer rmu.Unlock()
 				if err != nil {
@@ -197,4 +199,14 @@ func TestVerifC04Overlap(t *testing.T) {
 			}
 		}
 	}
+}
+
+// c04BuildRA calls Advertiser.buildRA(cfg) through reflection, taking the first result as
+// the advertisement and the last as the error, so that a version of the code under test
+// that returns more than those two still builds with this harness.
+func c04BuildRA(a *Advertiser) (*ndp.RouterAdvertisement, error) {
+	out := reflect.ValueOf(a.buildRA).Call([]reflect.Value{reflect.ValueOf(a.cfg)})
+	ra, _ := out[0].Interface().(*ndp.RouterAdvertisement)
+	err, _ := out[len(out)-1].Interface().(error)
+	return ra, err
 }
